@@ -532,7 +532,7 @@ func writeEvidence(id, tier string, def *checkDef, results []*exploreResult, vio
 		il = append(il, f)
 	}
 	sort.Strings(il)
-	trusted := append([]string{"golang.org/x/tools/go/ssa v0.50.0 (translation of /repo to SSA)", "symgo interpreter + term simplifier", "z3 4.8.12"}, def.Trusted...)
+	trusted := append([]string{"golang.org/x/tools/go/ssa v0.50.0 (translation of /repo to SSA)", "symgo interpreter + term simplifier", "z3 5.1.0 (z3-new; one-shot z3 4.8.12 fallback on unknown); cvc5 1.0 re-checks a sample of the queries"}, def.Trusted...)
 	for _, f := range il {
 		trusted = append(trusted, "intrinsic: "+f)
 	}
@@ -551,7 +551,7 @@ func writeEvidence(id, tier string, def *checkDef, results []*exploreResult, vio
 		"assumptions": def.Assumptions,
 		"coverage": map[string]any{
 			"explanation":                   def.Explanation,
-			"technique":                     "bounded symbolic execution of go/ssa (regenerated from /repo on this run) + SMT (z3 -in, QF_BV); every feasible path within the bounds is explored, each assertion/panic site is a solver query",
+			"technique":                     "bounded symbolic execution of go/ssa (regenerated from /repo on this run) + SMT (z3-new -in, QF_BV); every feasible path within the bounds is explored, each assertion/panic site is a solver query",
 			"states":                        max(paths, 1),
 			"transitions":                   max(decisions, 1),
 			"traces_validated_against_impl": replayed,
@@ -569,7 +569,7 @@ func writeEvidence(id, tier string, def *checkDef, results []*exploreResult, vio
 			"harnesses":                     harnesses,
 			"bounds":                        def.Bounds[tier],
 			"outside_the_claim":             def.Outside,
-			"solver":                        map[string]any{"name": "z3 4.8.12", "queries": queries, "time_s": round3(solverT)},
+			"solver":                        map[string]any{"name": "z3 5.1.0 (z3-new), fallback z3 4.8.12; cvc5 1.0 sampling", "queries": queries, "time_s": round3(solverT)},
 			"incomplete_paths":              incomplete,
 			"exhaustive":                    exhaustive,
 			"notes":                         notes,
